@@ -267,7 +267,7 @@ JOBS['C18'] = [
 
 # ---------------------------------------------------------------- C05
 META['C05'] = {
-    'bounds': {'quick': 'vi: every stream of 2 keys (bytes 1..127) on the 3-line buffer with wide/combining/RTL/tab characters in a 6x20 window, and every single key on 4 buffers x window sizes {2x2, 3x5, 6x20, 25x80} x 5 option vectors; ex: every command line of 21 prefixes + 2 free bytes on that buffer, 1 free byte on the others; all ordered pairs of 46 command lines on an empty and on a 3-line buffer; command lines of length 505..516 of 12 filler kinds; (all other checks also run with the same memory/uninitialised/budget detection on every path)',
+    'bounds': {'quick': 'vi: every stream of 2 keys (bytes 1..127) on the 3-line buffer with wide/combining/RTL/tab characters in a 6x20 window, and every single key on 4 buffers x window sizes {2x2, 3x5, 6x20, 25x80} x 5 option vectors; ex: every command line of 21 prefixes + 2 free bytes on that buffer, 1 free byte on the others; all ordered pairs of 54 command lines on an empty and on a 3-line buffer; command lines of length 505..516 of 12 filler kinds; (all other checks also run with the same memory/uninitialised/budget detection on every path)',
                'thorough': 'vi: 2 keys on all buffers; 3 keys from the 40 most common command keys; ex: 3 free bytes'},
     'outside': 'streams longer than the bound (the per-command structure is the argument for more, not a solver result); keys >= 0x80 outside typed text; real terminals, signals, child processes, sockets (the environment model refuses them; only the failure paths run); memory exhaustion',
     'assumptions': ['when the given keys run out the input continues with ESC :q! (vi) or q! (ex) so that every path is given its quit command', 'instruction budget per path 40 M (vi) / 20 M (ex) IR steps: more is reported as a possible hang'],
